@@ -739,6 +739,30 @@ func addC12ChainCase(run *Run, r *Rng, cfg GenCfg) {
 			}
 			cur = res
 		}
+		// a diff value read ONCE and applied again after the document it produced was patched below the member
+		// it added: every application must give MergePatch(target, patch)
+		{
+			d1, err := jd.ReadMergeString(`{"a":{},"n":{"m":{}}}`)
+			if err != nil {
+				return "fail ReadMergeString: " + err.Error()
+			}
+			r1, err := mustNode(VObj("x", VNum(1)).Wire()).Patch(d1)
+			if err != nil {
+				return "fail Patch: " + err.Error()
+			}
+			d2, _ := jd.ReadMergeString(`{"a":{"k":1,"deep":{"z":[null]}},"n":{"m":{"w":true}}}`)
+			if _, err := r1.Patch(d2); err != nil {
+				return "fail Patch (second): " + err.Error()
+			}
+			r3, err := mustNode(VObj("y", VNum(2), "a", VArr(VNum(1), VNum(2))).Wire()).Patch(d1)
+			if err != nil {
+				return "fail Patch (same diff value again): " + err.Error()
+			}
+			want := mustNode(VObj("y", VNum(2), "a", VObj(), "n", VObj("m", VObj())).Wire())
+			if !res3Equals(r3, want) {
+				return "fail the merge patch {\"a\":{},\"n\":{\"m\":{}}} read once and applied a second time gives " + r3.Json() + ", RFC 7386 gives " + want.Json()
+			}
+		}
 		q := mustNode(VObj("q", VBool(true)).Wire())
 		d0, err := jd.ReadMergeString("{}")
 		if err != nil {
@@ -757,6 +781,8 @@ func addC12ChainCase(run *Run, r *Rng, cfg GenCfg) {
 	run.Count("chain")
 	run.Add(c)
 }
+
+func res3Equals(a, b jd.JsonNode) bool { return a.Equals(b) && b.Equals(a) }
 
 func propC12(run *Run, n int) {
 	run.rule = "random targets x random merge patch documents (objects nested with nulls, empty objects at any depth over objects/scalars/absent keys, arrays, scalars, null at the root); non-trivial = the patch is not the empty object; distinct = distinct (target, patch)"
